@@ -21,6 +21,12 @@ func init() {
 			p.W["bytes.fromarr"] = 3
 			p.W["dispose"] = 3
 			p.MaxRoots = r.Range(2, 5)
+			if r.Sub("big").Chance(0.35) {
+				// large sources: batch-built maps with several index slabs per level
+				p.MaxElems = 800
+				p.W["m.fill"], p.W["a.fill"] = 9, 5
+				p.RootMapShare = 0.7
+			}
 			if r.Chance(0.5) {
 				// small maps whose keys collide on every digest level (last-level lists), some of them long keys
 				p.LongKeyProb = 0.2
